@@ -79,7 +79,13 @@ func (c *C05Case) effExplode() bool {
 	if c.Explode != nil {
 		return *c.Explode
 	}
-	return c.In == "query" || c.In == "cookie"
+	// OpenAPI 3.0.3: "When style is form, the default value is true. For all other styles, the default value is false."
+	// (deepObject is only defined exploded)
+	if c.In == "query" || c.In == "cookie" {
+		st := c.effStyle()
+		return st == "form" || st == "deepObject"
+	}
+	return false
 }
 
 // serialise per the OpenAPI 3.0.3 style table (harness-side implementation; cross-checked against Spec/ParamSpec.ser)
@@ -514,6 +520,9 @@ var c05Cells = []struct {
 	{"query", "pipeDelimited", bp(false)}, {"query", "pipeDelimited", bp(true)},
 	{"header", "", nil}, {"header", "simple", bp(false)}, {"header", "simple", bp(true)},
 	{"cookie", "", nil}, {"cookie", "form", bp(false)}, {"cookie", "form", bp(true)},
+	// a style written out, explode left to its default (true for form, false for every other style)
+	{"path", "label", nil}, {"path", "matrix", nil}, {"query", "form", nil}, {"query", "spaceDelimited", nil}, {"query", "pipeDelimited", nil},
+	{"header", "simple", nil}, {"cookie", "form", nil},
 }
 
 var c05IntTexts = []string{"5", "-3", "0", "42", "7", "10", "2147483648", "+7", "0x10", "1_0", "007", "9223372036854775807", "9223372036854775808", "1.5", "abc", "", "100", "11"}
